@@ -305,6 +305,61 @@ pub fn run(rng: &mut Rng, out: &mut Out, n: usize) {
             out.case(&format!("c26 dec Bu32 {}", hex(&m)), "err eof", || dec_show::<BTreeSet<u32>>(&m));
         }
     }
+    // all-ones and near-usize::MAX element counts / byte lengths in front of every length-prefixed
+    // decoder, at the top level and behind a prefix that moves the reader position
+    for j in 0..=17u64 {
+        let cnt = (u64::MAX - j) as usize;
+        let mut m = cnt.to_bytes();
+        m.extend(rng.bytes(6));
+        out.count("huge-count");
+        out.case(&format!("c26 dec str {}", hex(&m)), "err eof", || dec_show::<String>(&m));
+        out.case(&format!("c26 dec Vu8 {}", hex(&m)), "err eof", || dec_show::<Vec<u8>>(&m));
+        out.case(&format!("c26 dec Vu64 {}", hex(&m)), "err eof", || dec_show::<Vec<u64>>(&m));
+        out.case(&format!("c26 dec Mu16:u8 {}", hex(&m)), "err eof", || dec_show::<BTreeMap<u16, u8>>(&m));
+        out.case(&format!("c26 dec Bu32 {}", hex(&m)), "err eof", || dec_show::<BTreeSet<u32>>(&m));
+        let mut nested = vec![7u8, 9, 0];
+        nested.extend(&m);
+        out.case(&format!("c26 dec P(u8,u16,str) {}", hex(&nested)), "err eof", || dec_show::<(u8, u16, String)>(&nested));
+        out.case(&format!("c26 dec P(u8,u16,Vu8) {}", hex(&nested)), "err eof", || dec_show::<(u8, u16, Vec<u8>)>(&nested));
+    }
+    // reader primitives called with a length taken from corrupted input: read_slice / read_vec /
+    // read_string / check_eor at several positions, lengths around the remaining length and around
+    // every power of two up to usize::MAX (no panic, error exactly when len > remaining)
+    let hx = |b: &[u8]| if b.is_empty() { String::new() } else { hex(b) };
+    for total in [0usize, 1, 5, 12] {
+        let src: Vec<u8> = (0..total).map(|i| b'a' + (i as u8 % 26)).collect();
+        for pos in [0usize, 1, 4, 12] {
+            if pos > total { continue; }
+            let rem = total - pos;
+            let mut lens: Vec<u64> = vec![0, 1, rem as u64, rem as u64 + 1, (rem as u64).saturating_sub(1)];
+            for k in [8u32, 16, 31, 32, 33, 62, 63] { for d in [-1i64, 0, 1] { lens.push((1u64 << k).wrapping_add(d as u64)); } }
+            for j in 0..=(total as u64 + 2) { lens.push(u64::MAX - j); }
+            for len in lens {
+                let len = len as usize;
+                for op in ["slice", "vec", "string", "eor"] {
+                    out.count(&format!("prim:{op}"));
+                    let expect = if len > rem { "err eof".to_string() }
+                        else if op == "eor" { "ok".to_string() }
+                        else { format!("ok x{} {}", hx(&src[pos..pos + len]), rem - len) };
+                    let src2 = src.clone();
+                    out.case(&format!("c26 prim {op} {pos} {len} {}", if src.is_empty() { "-".to_string() } else { hex(&src) }), &expect, move || {
+                        let mut r = SliceReader::new(&src2);
+                        if winter_utils::ByteReader::read_slice(&mut r, pos).is_err() { return "bad-pos".into(); }
+                        let left = |r: &mut SliceReader| { let mut l = 0usize; while winter_utils::ByteReader::read_u8(r).is_ok() { l += 1; } l };
+                        match op {
+                            "eor" => match winter_utils::ByteReader::check_eor(&r, len) { Ok(()) => "ok".into(), Err(e) => format!("err {}", err_str(&e)) },
+                            "slice" => match winter_utils::ByteReader::read_slice(&mut r, len).map(|s| s.to_vec()) {
+                                Ok(v) => format!("ok x{} {}", hx(&v), left(&mut r)), Err(e) => format!("err {}", err_str(&e)) },
+                            "vec" => match winter_utils::ByteReader::read_vec(&mut r, len) {
+                                Ok(v) => format!("ok x{} {}", hx(&v), left(&mut r)), Err(e) => format!("err {}", err_str(&e)) },
+                            _ => match winter_utils::ByteReader::read_string(&mut r, len) {
+                                Ok(v) => format!("ok x{} {}", hx(v.as_bytes()), left(&mut r)), Err(e) => format!("err {}", err_str(&e)) },
+                        }
+                    });
+                }
+            }
+        }
+    }
     let k = core::cmp::max(1, n / 8);
     run_type::<u8>(rng, out, k);
     run_type::<u16>(rng, out, k);
